@@ -809,6 +809,11 @@ func (c *Checker) checkSimpleLiteralPattern(node ast.LiteralPatternNode, typ typ
 	n := c.checkExpression(node)
 	nodeType := c.TypeOf(n)
 	c.checkCanMatch(typ, nodeType, n.Location())
+	if !nodeType.IsLiteral() {
+		// an interpolated string/symbol or a negated constant matches a single value
+		// that is only known at runtime, it does not capture its whole class
+		return n.(ast.PatternNode), types.Never{}
+	}
 	return n.(ast.PatternNode), nodeType
 }
 
